@@ -114,6 +114,58 @@ def r4(fx):
     # measure: boost_error_level asks the segments for their bit count in that version with the same eci / is_sa (C05.R2 records the arguments)
 
 
+@rule('C05', 'R9', 11, '_encode with the real level booster: the level of the symbol is the highest level of its version that holds the bits the content needs in that version (and the requested one when boosting is off)')
+def r9(fx):
+    """End to end over _encode: the content is a model whose bit count depends on the version it is asked about (the right
+    version gives the intended count, any other argument a count that lands on the other side of the boundary)."""
+    from .models import trace_encode
+    enc = fx.fn('encoder', '_encode')
+    lv, mv, md = levels(fx), micro_versions(fx), modes(fx)
+    inv_l = {val: k for k, val in lv.items()}
+    order = 'LMQH'
+    versions = iso.ALL_VERSIONS if fx.tier == 'thorough' else (-3, -2, -1, 0, 1, 2, 9, 10, 26, 27, 40)
+    for v in versions:
+        rv = mv[v] if v < 1 else v
+        avail = [l for l in order if l in iso.levels_of(v)]
+        bad = None
+        n = 0
+        for req in iso.levels_of(v):
+            caps = sorted({iso.capacity_bits(v, l) for l in avail}) if avail else [iso.capacity_bits(v, None)]
+            for nd in sorted({c + d for c in caps for d in (0, 1)} | {1}):
+                if nd > iso.capacity_bits(v, req):
+                    continue        # does not fit the requested level: _encode is never reached with it
+                for flag in (True, False):
+                    def blwo(ver, e='<not passed>', is_sa=False, nd=nd):
+                        return nd if ver == rv else nd + 9
+                    # a numeric segment whose header and payload add up to `nd` bits in this version (a consistent model,
+                    # whichever way the length is obtained)
+                    head = (4 + iso.CCI['numeric'][iso.version_range(v)]) if v >= 1 else ({-3: 0, -2: 1, -1: 2, 0: 3}[v] + iso.CCI['numeric'][v])
+                    if nd - head < 1:
+                        continue
+                    segs = SegmentsModel([SegModel(md['numeric'], None, nbits=nd - head, char_count=3)], blwo=blwo)
+                    try:
+                        rec, res, info = trace_encode(fx, rv, req, None, boost_error=flag, segments=segs, real=('boost_error_level',))
+                        fin = [r for r in rec if r[0] == 'make_final_message']
+                        got = inv_l.get(fin[0][1][1], fin[0][1][1]) if fin else '<no final message>'
+                        code = [r for r in rec if r[0] == 'Code']
+                        if code and inv_l.get(code[0][1][2], code[0][1][2]) != got:
+                            got = f'{got} in the final message but {inv_l.get(code[0][1][2], code[0][1][2])} in the result'
+                    except PyRaise as ex:
+                        got = f'raises {ex.name}'
+                    want = req
+                    if flag and req is not None:
+                        for l in avail[avail.index(req) + 1:]:
+                            if iso.capacity_bits(v, l) >= nd:
+                                want = l
+                            else:
+                                break
+                    n += 1
+                    if got != want and bad is None:
+                        bad = (req, nd, flag, got, want)
+        yield ob(f'v{v}: level of the symbol for every requested level, both sides of every capacity, boosting on and off ({n} cases)', bad is None, enc,
+                 got=f'requested {bad[0]}, {bad[1]} bits, boost_error={bad[2]}: {bad[3]}' if bad else 'highest fitting level', want=f'{bad[4]}' if bad else 'highest fitting level')
+
+
 @rule('C05', 'R5', 30, 'encode: default level L (none for M1), H refused for Micro, boost flag and level passed through')
 def r5(fx):
     fn = fx.fn('encoder', 'encode')
